@@ -52,6 +52,7 @@ typedef struct {
     int_t  used;
     int_t  top1;  /* grow upward, relative to &array[0] */
     int_t  top2;  /* grow downward */
+    int_t  tail_users; /* threads whose work arrays live at the tail */
     void *array;
 #if ( MACH==PTHREAD )
     pthread_mutex_t lock;
@@ -92,6 +93,7 @@ void pcgstrf_SetupSpace(void *work, int_t lwork)
         stack.used = 0;
         stack.top1 = 0;
         stack.top2 = lwork;
+        stack.tail_users = 0;
         stack.array = (void *) work;
     }
 #if ( MACH==PTHREAD )
@@ -448,8 +450,7 @@ pcgstrf_MemInit(int_t n, int_t annz, superlumt_options_t *superlumt_options,
 int_t
 pcgstrf_WorkInit(int_t n, int_t panel_size, int_t **iworkptr, complex **dworkptr)
 {
-    int_t  isize, dsize, extra;
-    complex *old_ptr;
+    int_t  isize, dsize;
     int_t    maxsuper = sp_ienv(3),
            rowblk   = sp_ienv(4);
 
@@ -459,8 +460,35 @@ pcgstrf_WorkInit(int_t n, int_t panel_size, int_t **iworkptr, complex **dworkptr
     
     if ( whichspace == SYSTEM ) 
 	*iworkptr = (int_t *) intCalloc(isize/sizeof(int_t));
-    else
-	*iworkptr = (int_t *) cuser_malloc(isize, TAIL);
+    else {
+	/* Both work arrays of this thread come from the tail of the user
+	   stack in ONE critical section, together with the count of the
+	   threads that hold such arrays: pcgstrf_WorkFree() may give the
+	   tail back only when the last of them is done. The request is
+	   padded so that dwork can be aligned inside its own block. */
+	*iworkptr = NULL;
+	*dworkptr = NULL;
+#if ( MACH==PTHREAD ) /* Use pthread ... */
+	pthread_mutex_lock( &stack.lock );
+#elif ( MACH==OPENMP ) /* Use openMP ... */
+#pragma omp critical ( STACK_LOCK )
+#endif
+	{
+	    if ( !StackFull(isize + dsize + sizeof(double)) ) {
+		stack.top2 -= isize;
+		*iworkptr = (int_t *) ((char*) stack.array + stack.top2);
+		stack.top2 -= dsize + sizeof(double);
+		*dworkptr = (complex *) ((char*) stack.array + stack.top2);
+		stack.used += isize + dsize + sizeof(double);
+		++stack.tail_users;
+	    }
+	}
+#if ( MACH==PTHREAD ) /* Use pthread ... */
+	pthread_mutex_unlock( &stack.lock );
+#endif
+	if ( *dworkptr && NotDoubleAlign(*dworkptr) )
+	    *dworkptr = (complex *) DoubleAlign(*dworkptr);
+    }
     if ( ! *iworkptr ) {
 	fprintf(stderr, "pcgstrf_WorkInit: malloc fails for local iworkptr[]\n");
 	return (isize + n);
@@ -468,34 +496,6 @@ pcgstrf_WorkInit(int_t n, int_t panel_size, int_t **iworkptr, complex **dworkptr
 
     if ( whichspace == SYSTEM )
 	*dworkptr = (complex *) SUPERLU_MALLOC((size_t) dsize);
-    else {
-	    *dworkptr = (complex *) cuser_malloc(dsize, TAIL);
-	    if ( NotDoubleAlign(*dworkptr) ) {
-	        old_ptr = *dworkptr;
-	        *dworkptr = (complex*) DoubleAlign(*dworkptr);
-	        *dworkptr = (complex*) ((double*)*dworkptr - 1);
-	        extra = (char*)old_ptr - (char*)*dworkptr;
-#if ( DEBUGlevel>=1 )
-	        printf("pcgstrf_WorkInit: not aligned, extra" IFMT "\n", extra);
-#endif	    
-#if ( MACH==PTHREAD ) /* Use pthread ... */
-        pthread_mutex_lock( &stack.lock );
-#elif ( MACH==OPENMP ) /* Use openMP ... */
-#pragma omp critical ( STACK_LOCK )
-#endif
-              {
-	        if ( StackFull(extra) ) { /* no room for the alignment shift */
-		    *dworkptr = NULL;
-		} else {
-		    stack.top2 -= extra;
-		    stack.used += extra;
-		}
-	      }
-#if ( MACH==PTHREAD ) /* Use pthread ... */
-        pthread_mutex_unlock( &stack.lock );
-#endif
-	    }
-    } /* else */
     if ( ! *dworkptr ) {
 	printf("malloc fails for local dworkptr[] ... dsize " IFMT "\n", dsize);
 	return (isize + dsize + n);
@@ -537,8 +537,12 @@ void pcgstrf_WorkFree(int_t *iwork, complex *dwork, GlobalLU_t *Glu)
 #pragma omp critical ( STACK_LOCK )
 #endif
         {
-	    stack.used -= (stack.size - stack.top2);
-	    stack.top2 = stack.size;
+	    /* The tail also holds the work arrays of the threads that are
+	       still running: only the last one gives it back. */
+	    if ( --stack.tail_users == 0 ) {
+		stack.used -= (stack.size - stack.top2);
+		stack.top2 = stack.size;
+	    }
 	    
 	    /*	pcgstrf_StackCompress(Glu);  */
         }
